@@ -72,7 +72,7 @@ Lemma render_inventory :
     map (fun sr => snd (fst (fst (fst sr)))) (filter (fun sr => match snd sr with RPermParam _ _ | RSortedAfter _ _ | RDisjointKeys _ _ => true | _ => false end) accounted) /\
   existsb (fun sr => existsb (String.eqb (snd (fst (fst (fst sr))))) ["write_item"; "write_struct"; "write_enum"; "write_service"; "write_new_type"; "write_const"; "on_item"; "on_field"; "on_variant"; "can_derive"; "rust_name"; "def_lit"; "lit_into_ty"])
           (filter (fun sr => match snd sr with RPermParam _ _ | RSortedAfter _ _ | RDisjointKeys _ _ => true | _ => false end) accounted) = false.
-Proof. repeat split; vm_compute; reflexivity. Qed.
+Proof. split; [|split]; vm_compute; reflexivity. Qed.
 
 (* ---- a positive example for C17_workspace: three crates with distinct names, two of them with several modules; every permutation
    parameter reversed / swapped vs. the identity: same members list, same crates, non-trivial content *)
@@ -96,5 +96,5 @@ Example workspace_nonvacuous :
   map fst (snd (ws_run true (@rev _) (@rev _) (@rev _) (@rev _) (@rev _) (@rev _))) = ["alpha"; "beta"; "common"]%string.
 Proof.
   split; [vm_compute; repeat constructor; cbn; intuition discriminate|].
-  repeat split; vm_compute; reflexivity.
+  split; [|split; [|split]]; vm_compute; reflexivity.
 Qed.
